@@ -1,7 +1,7 @@
 (* C16 (round 4): Arr_Proofs instantiated with the regenerated sizing functions (sqrt / cnst, every L <= 62, sizes < 2^62) *)
 From Coq Require Import ZArith Bool List Lia.
 From MomoCommon Require Import GenPrelude.
-From C16 Require Gen_SegSqrt Gen_SegCnst Gen_ArrSqrt Gen_ArrCnst Gen_ArrLog SegMath SegSqrt_Proofs SegCnst_Proofs SegModel SegModel_Inst Arr_Proofs.
+From C16 Require Gen_SegSqrt Gen_SegCnst Gen_ArrSqrt Gen_ArrCnst Gen_ArrLog Gen_ShiftSqrt Gen_ShiftCnst SegMath SegSqrt_Proofs SegCnst_Proofs SegModel SegModel_Inst Arr_Proofs.
 Local Open Scope Z_scope.
 Import SegMath SegModel_Inst.
 
@@ -121,7 +121,14 @@ Proof.
   rewrite (SegSqrt_Proofs.gen_idx_of L s 0) by (try lia). lia.
 Qed.
 
-Ltac dq2 := first [exact q_cnt_pos|exact q_idx_step|exact (q_idx_zero L HL)|exact q_seg_split|dq].
+Lemma q_idx_small m : 0 <= m <= SCq L -> idx m 0 < 2 ^ 64 - 1.
+Proof.
+  intros Hm. pose proof (q_fit m Hm) as Hfit. pose proof (cnt_pos L m ltac:(lia) ltac:(lia)).
+  unfold idx. rewrite SegSqrt_Proofs.gen_idx_of by (try assumption; lia).
+  pose proof (SegMath.pow2_pos L ltac:(lia)). lia.
+Qed.
+
+Ltac dq2 := first [exact q_cnt_pos|exact q_idx_step|exact (q_idx_zero L HL)|exact q_seg_split|exact q_idx_small|dq].
 
 Theorem sqrt_ShrinkFit_refines segs n c : Arr_Proofs.ginv seg maxi (SCq L) n c -> idx n 0 < maxi ->
   exists n', Gen_ArrSqrt.ShrinkFit seg idx segs n c = Ok (tt, n') /\ n' <= n /\
@@ -166,6 +173,32 @@ Theorem sqrt_pvDecCount_log segs n c glog gn count : 0 <= count <= c -> c < maxi
   exists glog' m, Gen_ArrLog.pvDecCount seg cnt segs n c glog gn count = Ok (tt, count, glog', gn + 2 * Z.of_nat m) /\
     (forall i, i < gn -> glog' i = glog i) /\ Arr_Proofs.tiles idx cnt (SCq L) glog' segs m gn c count.
 Proof. intros. eapply (Arr_Proofs.pvDecCount_log_spec seg idx cnt maxi (SCq L)); dq2. Qed.
+
+Theorem sqrt_Insert_stable alloc segs n c (items : Z -> Z) index count it : Arr_Proofs.ginv seg maxi (SCq L) n c -> 0 <= index <= c -> 0 <= count ->
+  c + count < maxi -> (it < index \/ c + count <= it) ->
+  exists segs' n' items',
+    Gen_ArrSqrt.Reserve seg idx alloc segs n c (c + count) = Ok (tt, segs', n') /\
+    Gen_ShiftSqrt.ShiftInsert items c (idx n' 0) index count it = Ok (tt, items', c + count) /\
+    (forall k, k < n -> segs' k = segs k) /\ n <= n' /\ Arr_Proofs.ginv seg maxi (SCq L) n' (c + count) /\
+    (forall i, 0 <= i < c -> Gen_ArrSqrt.pvGetItem seg segs' n' (c + count) i = Gen_ArrSqrt.pvGetItem seg segs n c i) /\
+    (forall j, j < index -> items' j = items j) /\ (forall j, index <= j < index + count -> items' j = items it) /\
+    (forall j, index + count <= j < c + count -> items' j = items (j - count)).
+Proof. intros. eapply (Arr_Proofs.Insert_stable seg idx cnt alloc maxi (SCq L)); dq2. Qed.
+
+Theorem sqrt_Remove_stable segs n c (items : Z -> Z) index count : Arr_Proofs.ginv seg maxi (SCq L) n c -> 0 <= index -> 0 <= count -> index + count <= c ->
+  exists items',
+    Gen_ShiftSqrt.ShiftRemove items c (idx n 0) index count = Ok (tt, items', c - count) /\ Arr_Proofs.ginv seg maxi (SCq L) n (c - count) /\
+    (forall i, 0 <= i < c - count -> Gen_ArrSqrt.pvGetItem seg segs n (c - count) i = Gen_ArrSqrt.pvGetItem seg segs n c i) /\
+    (forall j, j < index -> items' j = items j) /\ (forall j, index <= j < c - count -> items' j = items (j + count)).
+Proof. intros. eapply (Arr_Proofs.Remove_stable seg idx cnt maxi (SCq L)); dq2. Qed.
+
+Theorem sqrt_nogrow_bridge segs n c : Arr_Proofs.ginv seg maxi (SCq L) n c -> c + 1 < maxi ->
+  Gen_ArrSqrt.AddBackNogrowCrt seg segs n c = if Z.ltb c (idx n 0) then Ok (tt, c + 1) else Stuck.
+Proof. intros. eapply (Arr_Proofs.nogrow_bridge seg idx cnt maxi (SCq L)); dq2. Qed.
+
+Theorem sqrt_removeback_bridge segs n c k : 0 <= k -> 0 <= c < maxi ->
+  Gen_ArrSqrt.RemoveBack seg cnt segs n c k = if Z.leb k c then Ok (tt, c - k) else Stuck.
+Proof. intros. eapply (Arr_Proofs.removeback_bridge seg idx cnt maxi (SCq L)); dq2. Qed.
 
 Theorem sqrt_ginv_empty : Arr_Proofs.ginv seg maxi (SCq L) 0 0.
 Proof. split; [lia|]. apply (SegModel_Inst.sqrt_inv_empty L HL). Qed.
@@ -251,7 +284,18 @@ Proof.
   rewrite SegCnst_Proofs.gen_idx by lia. lia.
 Qed.
 
-Ltac dc2 := first [exact c_cnt_pos|exact c_idx_step|exact (c_idx_zero L HL)|exact c_seg_split|dc].
+Lemma c_idx_small m : 0 <= m <= SCc L -> idx m 0 < 2 ^ 64 - 1.
+Proof.
+  intros Hm. unfold idx. pose proof (c_fit m Hm).
+  assert (Hq : ((maxi - 1) / 2 ^ L) * 2 ^ L <= maxi - 1).
+  { pose proof (Z.div_mod (maxi - 1) (2 ^ L) ltac:(lia)). pose proof (Z.mod_pos_bound (maxi - 1) (2 ^ L) HB). lia. }
+  assert (HB62 : 2 ^ L <= 2 ^ 62) by (apply Z.pow_le_mono_r; lia).
+  rewrite SegCnst_Proofs.gen_idx by lia. unfold SCc in Hm.
+  assert (m * 2 ^ L <= ((maxi - 1) / 2 ^ L + 1) * 2 ^ L) by nia.
+  unfold maxi in *. change (2 ^ 64) with (4 * 2 ^ 62). lia.
+Qed.
+
+Ltac dc2 := first [exact c_cnt_pos|exact c_idx_step|exact (c_idx_zero L HL)|exact c_seg_split|exact c_idx_small|dc].
 
 Theorem cnst_pvDecCount_spec segs n c count : 0 <= count <= c -> c < maxi -> Gen_ArrCnst.pvDecCount seg cnt segs n c count = Ok (tt, count).
 Proof. intros. eapply (Arr_Proofs.pvDecCount_spec seg idx cnt maxi (SCc L)); dc2. Qed.
@@ -284,4 +328,30 @@ Theorem cnst_pvDecCount_log segs n c glog gn count : 0 <= count <= c -> c < maxi
   exists glog' m, Gen_ArrLog.pvDecCount seg cnt segs n c glog gn count = Ok (tt, count, glog', gn + 2 * Z.of_nat m) /\
     (forall i, i < gn -> glog' i = glog i) /\ Arr_Proofs.tiles idx cnt (SCc L) glog' segs m gn c count.
 Proof. intros. eapply (Arr_Proofs.pvDecCount_log_spec seg idx cnt maxi (SCc L)); dc2. Qed.
+Theorem cnst_Insert_stable alloc segs n c (items : Z -> Z) index count it : Arr_Proofs.ginv seg maxi (SCc L) n c -> 0 <= index <= c -> 0 <= count ->
+  c + count < maxi -> (it < index \/ c + count <= it) ->
+  exists segs' n' items',
+    Gen_ArrCnst.Reserve seg idx alloc segs n c (c + count) = Ok (tt, segs', n') /\
+    Gen_ShiftCnst.ShiftInsert items c (idx n' 0) index count it = Ok (tt, items', c + count) /\
+    (forall k, k < n -> segs' k = segs k) /\ n <= n' /\ Arr_Proofs.ginv seg maxi (SCc L) n' (c + count) /\
+    (forall i, 0 <= i < c -> Gen_ArrCnst.pvGetItem seg segs' n' (c + count) i = Gen_ArrCnst.pvGetItem seg segs n c i) /\
+    (forall j, j < index -> items' j = items j) /\ (forall j, index <= j < index + count -> items' j = items it) /\
+    (forall j, index + count <= j < c + count -> items' j = items (j - count)).
+Proof. intros. eapply (Arr_Proofs.Insert_stable seg idx cnt alloc maxi (SCc L)); dc2. Qed.
+
+Theorem cnst_Remove_stable segs n c (items : Z -> Z) index count : Arr_Proofs.ginv seg maxi (SCc L) n c -> 0 <= index -> 0 <= count -> index + count <= c ->
+  exists items',
+    Gen_ShiftCnst.ShiftRemove items c (idx n 0) index count = Ok (tt, items', c - count) /\ Arr_Proofs.ginv seg maxi (SCc L) n (c - count) /\
+    (forall i, 0 <= i < c - count -> Gen_ArrCnst.pvGetItem seg segs n (c - count) i = Gen_ArrCnst.pvGetItem seg segs n c i) /\
+    (forall j, j < index -> items' j = items j) /\ (forall j, index <= j < c - count -> items' j = items (j + count)).
+Proof. intros. eapply (Arr_Proofs.Remove_stable seg idx cnt maxi (SCc L)); dc2. Qed.
+
+Theorem cnst_nogrow_bridge segs n c : Arr_Proofs.ginv seg maxi (SCc L) n c -> c + 1 < maxi ->
+  Gen_ArrCnst.AddBackNogrowCrt seg segs n c = if Z.ltb c (idx n 0) then Ok (tt, c + 1) else Stuck.
+Proof. intros. eapply (Arr_Proofs.nogrow_bridge seg idx cnt maxi (SCc L)); dc2. Qed.
+
+Theorem cnst_removeback_bridge segs n c k : 0 <= k -> 0 <= c < maxi ->
+  Gen_ArrCnst.RemoveBack seg cnt segs n c k = if Z.leb k c then Ok (tt, c - k) else Stuck.
+Proof. intros. eapply (Arr_Proofs.removeback_bridge seg idx cnt maxi (SCc L)); dc2. Qed.
+
 End Cnst.
